@@ -162,6 +162,15 @@ CHECKS['C29'] = dict(
     note='Not decided: Argon2/MD5 correctness (trusted crates), constant-time comparison, password file parsing.',
     design='§4 C29')
 
+CHECKS['C27'] = dict(
+    technique='length-hygiene and byte-budget analysis of the wire decoders: range check before cast (taint-style), guaranteed-minimum-length vs consumed-bytes accounting over dominating checks, frame confinement (payload readers on split_to buffers), may-panic inventory',
+    text='Decides for decode/decode_startup/read_cstring and all byte streams: the wire length is range-checked before it is cast or used in '
+         'arithmetic; every constant-index read, advance(n) and get_iN is covered by the bytes guaranteed by dominating length checks '
+         '(including `buf.len() < K + len` with a lower-bounded len) minus the bytes already consumed; payload readers only see a buffer split '
+         'off with the frame length; remaining panic-capable constructs are inventoried. Four concrete defects were found this way and repaired.',
+    note='Not decided: decode(encode(m)) = m (value-level); tokio/bytes internals are trusted.',
+    design='§4 C27')
+
 NOT_APPLICABLE = {
     'C01': 'Equality of result multisets with a reference engine is a value-level semantic equivalence over all queries and data; no structural necessary condition beyond those claimed under C06/C21/C24 exists and a static rule cannot stand in for an oracle.',
     'C03': 'Columnar-vs-row agreement is determined by computed values (empty input, NULL handling, sums); a rejected shape falls back safely, so no table-agreement obligation exists whose breach necessarily changes results.',
